@@ -580,7 +580,7 @@ def body(ck: common.Check):
     cases += [("remove", dict(b0, ops=[["clusters", [[4, 5.0, 5.0], [2, 15.0, 25.0]], "add_charge", None], ["read"], ["remove", ids_], ["read"],
                                         ["array", a0, "float64"], ["read"]])) for ids_ in ([], [0, 1], [0])]
     lay = directed_layout_cases()
-    cases += [("layout", c) for c in (lay if not quick else [c for k, c in enumerate(lay) if c["rows"] != 4 or k % 3 == 0])]
+    cases += [("layout", c) for c in (lay if not quick else [c for k, c in enumerate(lay) if (c["rows"] != 4 and k % 2 == 0) or k % 7 == 0])]
     for stream, n in (("inside", 130 if quick else 3000), ("outside", 90 if quick else 1800), ("remove", 50 if quick else 800)):
         cases += [(stream, gen_case(rng, stream)) for _ in range(n)]
     answers = LeanDriver("C14").batch([lean_request(c) for _, c in cases])
